@@ -43,6 +43,12 @@ META = {
         "level_text": "Generated search over width x k x retry scripts x completion schedules; upper bound checked at every trace position, 'no limit' and 'never prevents completion' as bounded waits.",
         "level_note": SIM_NOTE,
     },
+    "C05": {
+        "engine": "simexec", "design_ref": "DESIGN.md section 3 C05",
+        "technique": "property-based testing (rapid) with generated stop/timeout injection at trace positions; trace-invariant oracle (signal fan-out, no start after stop, force-kill, handlers) and bounded liveness with confirmed re-run",
+        "level_text": "Generated search over DAG x stop instant x signal behaviour x repeat/retry x timeout; the harness owns the stop instant (including the window between executor creation and process start) and the SIGKILL escalation.",
+        "level_note": SIM_NOTE,
+    },
 }
 
 NOT_APPLICABLE = {}
